@@ -297,6 +297,24 @@ func sidxScenario(e *simcore.Env, tp *simcore.Tape) {
 	e.Event("sidx series=%d key-range=%d knobs: %s; history: %d part(s), %d entries", s.nSeries, s.keyRange, knobs, len(s.live), len(s.model))
 
 	// --- the race
+	aliases := map[string]string{}
+	roleN := map[string]int{}
+	alias := func(p *simcore.Parked) string {
+		i := strings.IndexByte(p.Actor, '/')
+		if i < 0 {
+			return p.Actor
+		}
+		if a, ok := aliases[p.Actor]; ok {
+			return a
+		}
+		role := p.Actor[:i] + "/helper"
+		if p.Site == sxRemoval {
+			role = p.Actor[:i] + "/removal"
+		}
+		roleN[role]++
+		aliases[p.Actor] = fmt.Sprintf("%s#%d", role, roleN[role])
+		return aliases[p.Actor]
+	}
 	opsLeft := tp.Range(3, 12)
 	queriesLeft := tp.Range(2, 8)
 	maxSteps := []int{60, 100, 160}[tp.Choose(3)]
@@ -312,7 +330,18 @@ func sidxScenario(e *simcore.Env, tp *simcore.Tape) {
 		if e.Failed() {
 			return
 		}
+		// canonical order and names: the spawn ordinals of a query's helper goroutines depend on how many block workers it
+		// started (one per CPU), so children are ordered naturally (spawn order) and named by role and order of appearance
 		parked := simcore.ParkedList()
+		sort.SliceStable(parked, func(i, j int) bool {
+			if parked[i].Actor != parked[j].Actor {
+				return naturalLess(parked[i].Actor, parked[j].Actor)
+			}
+			return parked[i].Site < parked[j].Site
+		})
+		for _, p := range parked {
+			alias(p)
+		}
 		if step >= maxSteps {
 			if opsLeft > 0 || queriesLeft > 0 {
 				e.Probe("reach.sidx_race_step_limit")
@@ -453,7 +482,7 @@ func sidxScenario(e *simcore.Env, tp *simcore.Tape) {
 			if p.Site == sxRemoval && s.inFlightQ() > 0 {
 				e.Probe("reach.sidx_part_directory_removed_while_query_in_flight")
 			}
-			e.Event("step %d: release %s @ %s (of %d parked)", step, p.Actor, p.Site, len(parked))
+			e.Event("step %d: release %s @ %s (of %d parked)", step, alias(p), p.Site, len(parked))
 			simcore.Release(p)
 		}
 	}
